@@ -36,6 +36,16 @@ def main():
     assert np.allclose(L.controlled(X, 1), CNOT)
     assert np.allclose(L.expm(1j * 0.3 * X), np.cos(0.3) * np.eye(2) + 1j * np.sin(0.3) * X)
     assert [L.bitrev(i, 3) for i in range(8)] == [0, 4, 2, 6, 1, 5, 3, 7]
+    # coefficient-map algebra agrees with dense matrices on all ordered pairs of 2-qubit strings
+    import itertools
+    strs = [{q: p for q, p in zip((0, 1), ps) if p != "I"} for ps in itertools.product("IXYZ", repeat=2)]
+    for a in strs:
+        for b in strs:
+            ma = {tuple(sorted(a.items())): 2.0}
+            mb = {tuple(sorted(b.items())): 1j}
+            prod = P.map_mul(ma, mb)
+            dense = sum(c * P.string_matrix(dict(k), 2) for k, c in prod.items())
+            assert np.allclose(dense, (2.0 * P.string_matrix(a, 2)) @ (1j * P.string_matrix(b, 2)))
     from mc.ref import stats
     stats.selftest()
     print("reference-model selftest ok (%d basis-state checks)" % n_checks)
